@@ -1,5 +1,5 @@
 /-
-  TrC10 — the CURRENT SOURCE of `CSMatrix.Dim`, `CSMatrix.NNZ`, `CSMatrix.SetMinorDim` (translated by
+  TrC10 — the CURRENT SOURCE of `CSMatrix.Dim`, `CSMatrix.NNZ`, `CSMatrix.SetMinorDim`, `CSMatrix.Transpose` (translated by
   tools/go2lean on every run) computes exactly the model's `CSM.dim`, `CSM.nnz`, `CSM.setMinorDim`.
   (`SetMajorDim` reslices within the capacity of the backing array, which the translation's list
   semantics does not carry: it stays hand-modelled with the `hidden` rows, tied by correspondence.)
@@ -7,6 +7,7 @@
 -/
 import EtVerif.Proofs.TrMatSmall
 import EtVerif.Proofs.TrSetDim
+import EtVerif.Proofs.TrTranspose
 
 namespace EtVerif.TrC10
 open EtVerif EtVerif.GoSem EtVerif.Gen EtVerif.Tr Scalar
@@ -32,6 +33,13 @@ theorem nnz (m : CSM α) : (CSMatrix_NNZ (toGM m)).map (fun r => r.2) = .ok ((m.
 theorem setMinorDim (m : CSM α) (d : Nat) (hs : ∀ r ∈ m.rows, sortedStrict r = true) :
     (CSMatrix_SetMinorDim (toGM m) (d : Int)).map (fun r => r.1.m) = .ok (toGM (m.setMinorDim d)) :=
   CSMatrix_SetMinorDim_refines m d hs
+
+/-- matrix.go `CSMatrix.Transpose` (counting pass + scatter pass) = the model's `CSM.transpose`, for every
+    matrix whose stored column indices are all `< minor` (otherwise Go panics on `nnzs[e.Index]`); the number
+    of rows need not equal `major`; the cancellation poll is not part of the translation (C07). -/
+theorem transpose_refines (m : CSM α) (hc : m.colsInRange = true) :
+    (Gen.CSMatrix_Transpose (toGM m)).map (fun r => r.2) = .ok (toGM m.transpose, none) :=
+  CSMatrix_Transpose_refines m hc
 
 /-- non-vacuity. -/
 example : ∀ r ∈ ([[⟨0, 1⟩, ⟨2, 3⟩], []] : List (List (Entry Rat))), sortedStrict r = true := by decide
